@@ -106,6 +106,43 @@ def ts_wins(syn, crate, prop="C10"):
             r.inst(fn=b.path, receiver=sorted(x for x in recv if x), argument=sorted(x for x in arg if x), ts_is_receiver=ok)
             if not ok:
                 r.fail(prop, "merge-roles %s::from_attrs" % x, "merge receiver must be the #[ts] value and its argument the #[serde] value", f, l)
+            # both sides reach merge() exactly as parsed: no field of either value is written (or lent mutably) on the way
+            for role, callee_rx, opi in (("serde", r"utils::parse_serde_attrs$", 1), ("ts", r"utils::parse_attrs$", 0)):
+                holders = set()
+                for o in origins(b, op_local(t["args"][opi])):
+                    if o["kind"] == "call" and fn_matches(o["t"], callee_rx):
+                        holders.add(o["t"]["dst"]["l"])
+                # locals the parsed value is moved through whole (`let mut result = ..?`)
+                chain = set(holders)
+                cur = op_local(t["args"][opi])
+                seen_l = set()
+                while cur is not None and cur not in seen_l:
+                    seen_l.add(cur)
+                    chain.add(cur)
+                    nxt = None
+                    for dblk, di, st in M.def_sites(b, cur):
+                        if di != "term" and st["k"] == "assign" and st["rv"]["k"] == "use":
+                            pl = M.op_place(st["rv"]["op"])
+                            if pl:
+                                nxt = pl["l"]
+                    cur = nxt
+                writes = []
+                for blk2 in range(b.n):
+                    if b.is_cleanup(blk2) or blk not in b.reachable_from([blk2]):
+                        continue
+                    for st in b.stmts(blk2):
+                        if st["k"] != "assign":
+                            continue
+                        d = st["dst"]
+                        if d["l"] in chain and [p for p in d["p"] if p != ".0"] and not any(p.startswith("as ") or "Continue" in p for p in d["p"]):
+                            writes.append("write to %s" % "".join(d["p"]))
+                        if st["rv"]["k"] == "ref" and st["rv"].get("mut") and st["rv"]["pl"]["l"] in chain:
+                            writes.append("&mut borrow")
+                r.inst(fn=b.path, side=role, holders=sorted(chain), modified_before_merge=writes)
+                if writes:
+                    r.fail(prop, "merge-input-modified %s::from_attrs %s" % (x, role),
+                           "the value parsed from #[%s(..)] is altered before merge() (%s): a key written with one spelling no longer acts like the same key written with the other" % (role, ", ".join(sorted(set(writes)))),
+                           b.file(), l)
     r.floor = 40
     return r
 
